@@ -11,7 +11,7 @@
    - the kind: EUnsupported comes only from [add] (a value that is not an array where one is required).
    Arithmetic exceptions from undefined expressions are not DLTypeErrors (known finding K1): the model returns
    DCrash for them and the correspondence check lists them. *)
-From DL Require Import Base Lexer Parser Eval Shape Dtypes Check Context CtxSound CtxComplete Reports.
+From DL Require Import Base Lexer Parser Eval Shape Dtypes Check Context CtxSound CtxComplete Reports NoCrash.
 
 Theorem C08_first_failing_tensor : forall q c e, assert_context c q = DRej e ->
   exists q1 t q2 c1, q = q1 ++ t :: q2 /\ assert_context c q1 = DOk c1 /\ assert_one c1 t = DRej e.
@@ -31,6 +31,21 @@ Proof.
   - unfold check_rank in E1. destruct (t_mindex _); [destruct (_ <? _)|destruct (negb _)]; congruence.
   - discriminate.
 Qed.
+(* "For well-formed annotations and arbitrary array values the checker itself raises nothing but DLTypeErrors":
+   what the model can raise besides them is exactly the arithmetic exceptions of undefined expressions - the
+   listed known finding K1 (ZeroDivisionError, ValueError from isqrt, float overflow of huge negative powers). *)
+Theorem C08_only_dltype_or_arithmetic : forall q c x, Forall (fun t => annot_parsed (c_annot t)) q ->
+  assert_context c q = DCrash x -> arithmetic x.
+Proof. exact assert_context_crash. Qed.
+Example K1_is_real : exists c q x, Forall (fun t => annot_parsed (c_annot t)) q /\ assert_context c q = DCrash x.
+Proof.
+  destruct (parse_shape "a/b") as [ty|] eqn:E; [|discriminate].
+  exists (ctx0 [("a", 1%Z); ("b", 0%Z)]),
+         [{| c_idx := 0; c_name := "x"; c_tensor := {| x_lib := LNumpy; x_dt := KF32; x_shape := [1%Z] |};
+             c_annot := {| a_ty := ty; a_dtypes := []; a_opt := false |} |}], ZeroDivErr.
+  split; [constructor; [left; exists "a/b"; exact E|constructor]|].
+  vm_compute in E. injection E as <-. vm_compute. reflexivity.
+Qed.
 Example tuple_element_is_named : 
   tensor_arg_name {| c_idx := 1; c_name := "x"; c_tensor := {| x_lib := LNumpy; x_dt := KF32; x_shape := [] |};
                      c_annot := {| a_ty := scalar_type; a_dtypes := []; a_opt := false |} |} = "x[1]".
@@ -38,3 +53,4 @@ Proof. reflexivity. Qed.
 Redirect "C08.assumptions.1" Print Assumptions C08_first_failing_tensor.
 Redirect "C08.assumptions.2" Print Assumptions C08_tensor_report.
 Redirect "C08.assumptions.3" Print Assumptions C08_unsupported_only_from_add.
+Redirect "C08.assumptions.4" Print Assumptions C08_only_dltype_or_arithmetic.
